@@ -34,6 +34,15 @@ DScan(vec, d, sized) ==
     /\ valid' = vec /\ disk' = d /\ afterScan' = vec /\ phase' = "scanned"
     /\ UNCHANGED <<n, requested, usableSeen, base>>
 
+\* a stocktake in the middle of the update (zckdl does one at every start; a client may repeat it between requests): the same
+\* exact classification, whatever the download handle and the context did before
+DRescan(vec, d, sized) ==
+    /\ phase = "scanned" /\ Len(vec) = n
+    /\ \A c \in Idx : (vec[c] = 1) <=> (d[c] \/ ~sized[c])
+    /\ \A c \in Idx : vec[c] # 1 => vec[c] = 0 - 1
+    /\ valid' = vec /\ disk' = d
+    /\ UNCHANGED <<n, requested, usableSeen, base, afterScan, phase>>
+
 \* C12: a scan during which an I/O call failed: it may report an error, but must not trust absent bytes
 DScanFaulty(vec, d, sized) ==
     /\ phase = "header" /\ Len(vec) = n
